@@ -87,6 +87,8 @@ def signature(alpha, path, clause):
 def main(pid):
     thorough = vlib.tier() == "thorough"
     ev, vd = Evidence(pid), Verdict(pid)
+    import random
+    rnd = random.Random(vlib.seed())
     mine = set(CLAUSES[pid])
     total_paths = 0
     cfgs = ["Names", "Pins", "Keys"]
@@ -100,8 +102,6 @@ def main(pid):
         if thorough is False and len(paths) > 60000:
             # quick tier: every transition out of states at depth <= 3, and a seeded
             # sample of the deeper ones
-            import random
-            rnd = random.Random(vlib.seed())
             shallow = [p for p in paths if len(p[0]) <= 4]
             deep = [p for p in paths if len(p[0]) > 4]
             rnd.shuffle(deep)
